@@ -65,13 +65,15 @@ def run(ctx):
                 metas.append(("elastodiffusion|%s|%d#%d" % (name, chem, rep),
                               "Interstitial.elastodiffusion on %s species %d" % (name, chem),
                               {"world": name, "chem": chem, "data": d}, True))
-    vw = calc.VACANCY_WORLDS if not quick else calc.VACANCY_WORLDS[:6]
+    vw = calc.VACANCY_WORLDS if not quick else calc.VACANCY_WORLDS[:6] + [("wurtzite", 0, 1)]
     for name, chem, shell in vw:
         for nth in ((1,) if quick else (1, 2)):
             if nth == 2 and name in ("diamond", "hcp", "tet2", "b2"):
                 continue
-            s = calc.vacancy(name, chem, shell, nth, rng)
             for rep in range(2 if quick else 5):
+                # a new random orientation of the lattice vectors for every data set (roundoff-level quantities
+                # inside the calculator change with it; the results must not)
+                s = calc.vacancy(name, chem, shell, nth, rng)
                 d = calc.vacancy_data(s, rng, 0, 2)
                 mode = "default"
                 kw = {}
